@@ -1,6 +1,6 @@
 CONSTANTS
   MaxN = 2
-  MaxForces = 3
+  MaxForces = 2
   Muts = {"none", "eager", "wrap", "bypos", "nomemo", "refail", "renest", "wrongenv"}
 SPECIFICATION Spec
 INVARIANT Sound
